@@ -478,9 +478,16 @@ func cliWork(line string) string {
 
 		var argv []string
 		hasJSON := false
+		envHome := home
 		for _, f := range s.flags {
 			if strings.HasPrefix(f, "spokfile=") {
 				argv = append(argv, "--spokfile", filepath.Join(home, filepath.FromSlash(strings.TrimPrefix(f, "spokfile="))))
+				continue
+			}
+			if strings.HasPrefix(f, "home=") {
+				// $HOME of this invocation is a directory INSIDE the sandbox (discovery stops there; the working directory
+				// may be below it, above it, or unrelated to it)
+				envHome = filepath.Join(home, filepath.FromSlash(strings.TrimPrefix(f, "home=")))
 				continue
 			}
 			if f == "json" || f == "j" {
@@ -496,7 +503,7 @@ func cliWork(line string) string {
 		ctx, cancel := context.WithTimeout(context.Background(), 30*time.Second)
 		cmd := exec.CommandContext(ctx, bin, argv...)
 		cmd.Dir = filepath.Join(home, filepath.FromSlash(s.cwd))
-		cmd.Env = []string{"HOME=" + home, "PATH=" + nobin, "NO_COLOR=1", "TERM=dumb", "LOG=" + logPath}
+		cmd.Env = []string{"HOME=" + envHome, "PATH=" + nobin, "NO_COLOR=1", "TERM=dumb", "LOG=" + logPath}
 		if d := os.Getenv("GOCOVERDIR"); d != "" {
 			cmd.Env = append(cmd.Env, "GOCOVERDIR="+d) // a -cover build of the binary (coverage report of the evidence)
 		}
@@ -1126,6 +1133,27 @@ func genC09(w *bufio.Writer, g *gen, n int) {
 	}
 }
 
+// C17 at the level of the binary: where discovery looks — every working directory of the sandbox x every $HOME inside it
+// (below, above, unrelated) x a listing action; the spokfile is in `proj`
+func genC17(w *bufio.Writer, g *gen) {
+	dirs := []string{".", "proj", "proj/sub", "proj/sub/deep", "proj/src", "other"}
+	homes := []string{"", "home=.", "home=proj", "home=proj/sub", "home=other", "home=proj/sub/deep"}
+	for i := 0; i < 6; i++ {
+		c := g.newCase(specOpts{maxTasks: 3, minCmds: 1, maxCmds: 1, failPct: 0, wantDefault: 0, maxVars: 1}, wValid, treeOpts{withSpokfile: true})
+		c.steps = nil
+		for _, d := range dirs {
+			for _, h := range homes {
+				fl := []string{[]string{"show", "vars", "s"}[g.rng.Intn(3)]}
+				if h != "" {
+					fl = append(fl, h)
+				}
+				c.steps = append(c.steps, step{cwd: d, flags: fl})
+			}
+		}
+		fmt.Fprintln(w, c.encode())
+	}
+}
+
 // C03 at the level of the binary: which tasks one invocation runs, how often and in which order, as the side-effect log
 // shows it — several task names whose closures overlap, the default task, and `--clean` (with and without task names)
 // when the user has a `clean` task that depends on others
@@ -1467,6 +1495,15 @@ func cliGen(w *bufio.Writer, a map[string]string) {
 			genC09(w, g, 260)
 		}
 	case "C19":
+		// --init where discovery would not look: the refusal is about THIS directory's spokfile, whatever $HOME is
+		for _, h := range []string{"home=proj/sub", "home=other", "home=proj", "home=."} {
+			for _, fl := range [][]string{{"init"}, {"init", "force"}, {"init", "fmt"}} {
+				c := g.newCase(specOpts{maxTasks: 2, minCmds: 1, maxCmds: 1, wantDefault: 1, maxVars: 1}, wValid, treeOpts{withSpokfile: true})
+				c.steps = []step{{cwd: "proj", flags: append(append([]string{}, fl...), h)}, {cwd: "proj/sub", flags: append(append([]string{}, fl...), h)},
+					{cwd: "proj", flags: []string{"show", h}}}
+				fmt.Fprintln(w, c.encode())
+			}
+		}
 		if thorough {
 			genC19Exhaustive(w, g, []int{wValid, wValid, wSyntax, wDup, wBuiltin, wExec})
 			genC19Links(w, g, 6)
@@ -1476,6 +1513,8 @@ func cliGen(w *bufio.Writer, a map[string]string) {
 			genC19Links(w, g, 1)
 			genC19Random(w, g, 300)
 		}
+	case "C17":
+		genC17(w, g)
 	case "C03":
 		if thorough {
 			genC03(w, g, 1500)
